@@ -32,6 +32,9 @@ type caseSpec struct {
 	Order  string     `json:"order"`             // schema-last | schema-first | schema-middle
 	Loose  int        `json:"loose"`             // loose non-file blobs uploaded around the file
 	Seed   int64      `json:"seed"`
+	// TruncSearch: search a max zip size (below MaxZip) that makes the packer's size estimate
+	// fail: "part0" tries sizes around the first zip only, "any" around every zip.
+	TruncSearch string `json:"trunc_search,omitempty"`
 }
 
 // chunkPos is one data chunk of a file, in file order.
